@@ -45,7 +45,7 @@ SIG = {
     # ---- result sorts of the defined functions (for `opaque=`) -------------------------------------------------
     'pad16': 'bytes', 'zeros': 'bytes', 'gcm_h': 'bytes', 'gcm_j0': 'bytes', 'inc32': 'bytes', 'gcm_s_input': 'bytes',
     'gcm_tag': 'bytes', 'ctr_limit': 'int', 'be4': 'int[nat]',
-    'cp_mac_input': 'bytes', 'cp_tag': 'bytes', 'cp_otk': 'bytes',
+    'cp_mac_input': 'bytes', 'cp_s_input': 'bytes', 'cp_otk': 'bytes', 'nonce12': 'bytes',
     'dbl': 'bytes', 'omac_k1': 'bytes', 'omac_k2': 'bytes', 'omac_last': 'bytes', 'omac': 'bytes', 'eax_tag': 'bytes',
 }
 
@@ -160,6 +160,19 @@ def ctr_limit(bs, clen):
 def cp_otk(key, nonce):
     """2.6: the Poly1305 one-time key = first 32 bytes of the ChaCha20 block with counter 0"""
     return chacha20_ks(key, nonce, 0, 32)
+
+
+def nonce12(n):
+    """2.3: the 96-bit nonce; a 64-bit nonce is preceded by 32 zero bits"""
+    if len(n) == 8:
+        return b'\x00\x00\x00\x00' + n
+    return n
+
+
+def cp_s_input(s, alen, clen):
+    """the MAC input of 2.8 written over the stream s = AAD || pad16 || ciphertext pushed so far (before any ciphertext
+    s = AAD): since len(AAD || pad16) is a multiple of 16, pad16(s) = AAD || pad16 || ciphertext || pad16"""
+    return pad16(s) + u64le(alen) + u64le(clen)
 
 
 def cp_mac_input(a, c):
